@@ -142,9 +142,41 @@ def rule_C07(env):
             pass  # immutable table
         elif any(x in ty for x in ("Cell", "Mutex", "RwLock", "Atomic")):
             res.add("static", "mutable/%s" % s.split("::")[-1], "generation uses static %s: %s with interior mutability" % (s, ty))
+    # lazily initialised process-wide values: the initialiser must not depend on the first caller
+    for k in sorted(reach):
+        body = prog.bodies[k]
+        for i, term in cfg.calls_in(body):
+            p = cfg.callee_path(term) or ""
+            if re.search(r"(OnceLock::<T>::get_or_init|OnceCell::<T>::get_or_init|LazyLock::<T, F>::force|OnceLock::<T>::set|OnceLock::<T>::get_or_try_init)$", p):
+                res.count("lazy-init")
+                # the closure handed over: find its aggregate in this body
+                caps = None
+                ckey = None
+                for a in term["args"][1:]:
+                    pl = a.get("mv") or a.get("cp")
+                    if not pl:
+                        continue
+                    for blk in CG.iter_blocks(body):
+                        for st in blk["s"]:
+                            if st["k"] == "assign" and st["pl"]["l"] == pl["l"] and not st["pl"]["p"] and st["rv"]["k"] == "agg" and st["rv"]["ak"].get("t") == "closure":
+                                caps = len(st["rv"]["ops"])
+                                ckey = st["rv"]["ak"]["closure"]
+                if caps is None:
+                    res.add("lazy-init", "%s/unknown-initialiser" % k.split("::")[-1], "%s initialises a process-wide lazy value with an initialiser that is not a local closure" % k, env.loc(k))
+                    continue
+                if caps:
+                    res.add("lazy-init", "%s/captures" % k.split("::")[-1],
+                            "%s initialises a process-wide lazy value from a closure that captures %d value(s) of the calling generator: whoever calls first decides the content "
+                            "for every later generator in the process" % (k, caps), env.loc(k))
+                sub = cg.reachable([ckey])
+                bad = [pp for c in sub for (_, pp, _) in cg.external_calls([c]) if deny_reason(pp or "") or not is_pure(pp or "")]
+                if bad:
+                    res.add("lazy-init", "%s/impure-initialiser" % k.split("::")[-1], "lazy initialiser in %s calls %s" % (k, bad[0]), env.loc(k))
     # bin: batch mode and the protocol choice
     n_bin = bin_rules(env, res)
     res.floor("calls", 100, "external call sites reachable from generate*")
+    res.floor("hash-iter", 3, "hash-container iterations (the three memo.keys() sites)")
+    res.floor("lazy-init", 1, "lazy statics (STDLIB_MODULES)")
     res.coverage = {"explanation": "whole-program effect analysis on the resolved call graph: every external callee reachable from Generator::generate / "
                     "generate_from_arbitrary (incl. closures, fn items and every impl behind dyn Mutator) is either on the deny list (time, env, pid, thread, OS RNG, "
                     "hash seeds, addresses, I/O, shared mutable state), or classified deterministic, or reported; hash-container iterations must be followed by a dominating "
